@@ -13,4 +13,6 @@ cargo build --release -p vcheck 2>&1 | tail -2
   CARGO_TARGET_DIR=../target-cfg-bad  cargo check --release -q --features serialize 2>/dev/null || true )
 ( cd sendsync
   for f in "" "--features std" "--features std,serialize"; do CARGO_TARGET_DIR=../target-cfg-sendsync cargo check --release -q $f 2>/dev/null; done )
+# C18: macro-expanded source per feature set (nightly, -Zunpretty=expanded); optional - the check skips this part if it cannot run
+( cd "${VERIF_REPO:-/repo}" && for f in "--no-default-features" "" "--features serialize"; do CARGO_TARGET_DIR="$OLDPWD/target-expand" cargo +nightly rustc --lib --offline -q $f -- -Zunpretty=expanded >/dev/null 2>&1 || true; done )
 echo "setup done"
